@@ -75,6 +75,25 @@ def _count_stmts(body):
                if isinstance(_n, ast.stmt))
 
 
+def _falls_through(body):
+    """The end of the statement list can be reached (syntactic)."""
+    if not body:
+        return True
+    last = body[-1]
+    if isinstance(last, (ast.Return, ast.Raise)):
+        return False
+    if isinstance(last, ast.If):
+        return _falls_through(last.body) or _falls_through(last.orelse)
+    if isinstance(last, ast.Try):
+        if last.finalbody and not _falls_through(last.finalbody):
+            return False
+        return _falls_through(last.body + last.orelse) or any(
+            _falls_through(h.body) for h in last.handlers)
+    if isinstance(last, (ast.With, ast.AsyncWith)):
+        return _falls_through(last.body)
+    return True
+
+
 def _stored_names(body):
     out = set()
     for stmt in body:
@@ -322,7 +341,7 @@ class Inliner(object):
             for stmt in body:
                 out = ret.visit(stmt)
                 new_body.extend(out if isinstance(out, list) else [out])
-        if result is not None:
+        if result is not None and _falls_through(raw.body):
             # falling off the end returns None
             new_body.append(ast.copy_location(ast.Assign(
                 targets=[ast.Name(id=result, ctx=ast.Store())],
@@ -608,7 +627,20 @@ class Inliner(object):
                 hdl.body = self.process(caller, hdl.body, stack)
         if isinstance(stmt, ast.For):
             unrolled = self.generator_loop(caller, stmt, stack)
-            return unrolled if unrolled is not None else [stmt]
+            if unrolled is not None:
+                return unrolled
+            if isinstance(stmt.iter, ast.Call):
+                # for x in helper(...): the helper computes the iterable
+                callee = self.inlinable(caller, stmt.iter, stack)
+                if callee is not None:
+                    result = self._fresh(callee.name)
+                    expanded = self.expand(caller, stmt.iter, callee,
+                                           result, stack)
+                    if expanded is not None:
+                        stmt.iter = ast.copy_location(
+                            ast.Name(id=result, ctx=ast.Load()), stmt.iter)
+                        return expanded + [stmt]
+            return [stmt]
         call = None
         result = None
         tail = []
